@@ -179,15 +179,15 @@ def tla_chans(chs):
     return "<<" + ", ".join('[id |-> %d, kind |-> "%s", max |-> %d, resend |-> %d]' % (c["id"], c["kind"], c["max"], c["resend"]) for c in chs) + ">>"
 
 
-def tlc_strict(cfg, trace_path, wd, timeout=600):
+def tlc_strict(cfg, trace_path, wd, timeout=600, base="TraceRenetStrict"):
     """Strict pass: the recorded trace must be a behaviour of Renet.tla (same channel configuration)."""
-    key = sha(json.dumps({k: cfg.get(k, 0) for k in ("sc", "cs", "budget", "seqbase", "midbase")}, sort_keys=True))
-    mod = "SC_" + key
+    key = sha(base + json.dumps({k: cfg.get(k, 0) for k in ("sc", "cs", "budget", "seqbase", "midbase")}, sort_keys=True))
+    mod = "SC_" + key + "_" + sha(os.path.basename(trace_path))      # one module per trace: monitors run in parallel
     d = os.path.join(wd, "strict")
     os.makedirs(d, exist_ok=True)
     with open(os.path.join(d, mod + ".tla"), "w") as f:
-        f.write("---- MODULE %s ----\nEXTENDS TraceRenetStrict\nSC_ChSC == %s\nSC_ChCS == %s\n====\n" %
-                (mod, tla_chans(cfg["sc"]), tla_chans(cfg["cs"])))
+        f.write("---- MODULE %s ----\nEXTENDS %s\nSC_ChSC == %s\nSC_ChCS == %s\n====\n" %
+                (mod, base, tla_chans(cfg["sc"]), tla_chans(cfg["cs"])))
     with open(os.path.join(d, mod + ".cfg"), "w") as f:
         f.write("SPECIFICATION Spec\nCONSTANTS\n  ChSC <- SC_ChSC\n  ChCS <- SC_ChCS\n  Budget = %d\n  SeqBase = %d\n  MidBase = %d\nINVARIANT Done\nPOSTCONDITION Consumed\nCHECK_DEADLOCK FALSE\n" % (cfg["budget"], cfg.get("seqbase", 0), cfg.get("midbase", 0)))
     meta = os.path.join(d, "meta-" + os.path.basename(trace_path))
